@@ -328,6 +328,39 @@ def r8(ctx, facts):
         raise AnchorLost("PartitionKey::new: no branch that establishes `RawValue::Value` found")
 
 
+def r9(ctx, facts):
+    r = ctx.rule("R9", "the sink handed to write_encoded_partition_key forwards every chunk at once and in call order (no buffering, reordering or filtering between the encoder and the hasher)", floor=1)
+    from ..util import dj_of
+    W = "scylla::statement::prepared::PartitionKey::<'ps>::write_encoded_partition_key"
+    n = 0
+    for b, bb in facts.callers_of(W):
+        if b.crate != "scylla" or bb not in b.live_blocks:
+            continue
+        c = next((x for b2, x in b.calls() if b2 == bb), None)
+        if c is None or len(c.args) < 2:
+            continue
+        # the writer: `&mut closure`
+        locs, _, _ = backward_slice(b, c.args[1])
+        cls = [d[3][1][1] for l in locs for d in b.defs.get(l, []) if d[0] == "stmt" and d[3][0] == "agg" and d[3][1][0] == "closure"]
+        if len(cls) != 1:
+            r.fail("sink-shape:" + fn_short(b.path), "the writer handed to write_encoded_partition_key is not a closure built in place (%d candidates)" % len(cls), c.span)
+            n += 1
+            continue
+        cb = facts.body(cls[0])
+        n += 1
+        dj = dj_of(cb, facts)
+        # calls that are handed the chunk parameter (local 2) itself
+        fw = [x for bb2, x in cb.calls() if bb2 in cb.live_blocks and any(a[0] in ("c", "m") and dj.canon.path(a[1])[0] == 2 and not dj.canon.path(a[1])[1] for a in x.args)]
+        reach = dj.feasible_reach(0, removed_nodes=[x.bb for x in fw])
+        skipped = [e for e in cb.exits if e in reach]
+        branches = [bb2 for bb2 in cb.live_blocks if cb.term(bb2)[0] == "switch"]
+        r.instance("chunk-forwarded-unconditionally:" + fn_short(b.path), bool(fw) and not skipped and not branches,
+                   "the closure receiving the encoded partition key %s: the encoder emits (length, bytes, 0) per component in order, and the token is only right if the hasher sees exactly that byte stream; "
+                   "a sink that holds some chunks back lets a later chunk overtake them" % ("can return without passing its chunk on" if skipped or not fw else "branches on the chunk (size-dependent handling)"), cb.span)
+    if n == 0:
+        raise AnchorLost("no caller of write_encoded_partition_key found")
+
+
 # the only place a statement handle may start with the default partitioner: fresh from PREPARE (the session then sets it from metadata)
 FRESH_HANDLE = ("PreparedStatement::new",)
 
@@ -384,7 +417,7 @@ def path_last_name(place):
 
 def check(ctx):
     facts = inline_view(ctx.facts("default"))
-    for fn in (r1, r2, r3, r4, r5, r6, r7, r8):
+    for fn in (r1, r2, r3, r4, r5, r6, r7, r8, r9):
         try:
             fn(ctx, facts)
         except AnchorLost as ex:
